@@ -92,6 +92,10 @@ Definition v_slice (s e a b : N) : res (N * N) :=
   else let s' := s + a in let e' := s' + (b - a) in
        if (s <=? s') && (e' <=? e) then Ok (s', e') else Panic PSliceRange.
 
+(* slice with an ops range: `a..b`, `a..`, `..b`, `..` — a missing start is 0, a missing end is the view's length *)
+Definition v_slice_opt (s e : N) (a b : option N) : res (N * N) :=
+  v_slice s e (match a with Some x => x | None => 0 end) (match b with Some y => y | None => e - s end).
+
 Fixpoint strip_prefix (p t : text) : option text :=
   match p, t with
   | [], _ => Some t
